@@ -42,7 +42,7 @@ type C20Scrape struct{}
 
 func (e *C20Scrape) Name() string { return "fn.c20-scrape" }
 func (e *C20Scrape) Rule() string {
-	return "seeded scripts of 8-16 steps over 0-4 ExtendedDaemonSets and 0-5 replica sets in three namespaces, the controller watching all namespaces, one, or two of them: create, status update, relabel (incl. dotted/slashed/colliding keys), delete, watch expiry (410 and relist), normal watch close, failed LIST; after every judging point /ksmetrics of the real wiring must show exactly the oracle's series (value, namespace/name, label pairs) for the stored objects of the watched namespaces and none for deleted or unwatched ones; non-trivial = judging points reached after a relist or a re-opened watch"
+	return "seeded scripts of 8-16 steps over 0-4 ExtendedDaemonSets and 0-5 replica sets in three namespaces, the controller watching all namespaces, one, or two of them: create, status update, relabel (incl. dotted/slashed/colliding keys), delete, storms of simultaneous updates of both kinds, watch expiry (410 and relist), normal watch close, failed LIST; after every judging point /ksmetrics of the real wiring must show exactly the oracle's series (value, namespace/name, label pairs) for the stored objects of the watched namespaces and none for deleted or unwatched ones; non-trivial = judging points reached after a relist or a re-opened watch"
 }
 func (e *C20Scrape) Cases(tier string, _ int64) int {
 	if tier == "thorough" {
@@ -691,7 +691,29 @@ func (e *C20Scrape) Run(ctx *core.Ctx, idx int) {
 		if r.Intn(2) == 0 {
 			res = "extendeddaemonsetreplicasets"
 		}
-		switch k := r.Intn(20); {
+		switch k := r.Intn(22); {
+		case k >= 20: // a storm: objects of both kinds change at the same moment, several times over
+			n := 10 + r.Intn(30)
+			for i := 0; i < n; i++ {
+				for _, rs := range []string{"extendeddaemonsets", "extendeddaemonsetreplicasets"} {
+					if o := pickObj(rs); o != nil {
+						if o.eds != nil {
+							c20RandEDSStatus(r, o.eds)
+							if i%3 == 0 {
+								o.eds.Labels = c20RandLabels(r)
+							}
+						} else {
+							c20RandERSStatus(r, o.ers)
+							if i%3 == 0 {
+								o.ers.Labels = c20RandLabels(r)
+							}
+						}
+						srv.put(rs, "MODIFIED", o)
+					}
+				}
+			}
+			ctx.Count("C20.scrape-storms")
+			history = append(history, fmt.Sprintf("storm of %d updates of both kinds", n))
 		case k < 6: // status update
 			if o := pickObj(res); o != nil {
 				if o.eds != nil {
